@@ -38,6 +38,7 @@ def handle (op : String) (args : List String) : Option String :=
   match op, args with
   | "jose.b64", [h] => do let b ← parseBytes h; pure (textOut (b64 b))
   | "jose.unb64", [t] => do let t ← textArg t; pure ((unb64 t).str toHex)
+  | "jose.canon", [t] => do let t ← textArg t; pure (textOut (canonLast t))
   | "jose.compact.ser", [l] => do let l ← parseHexList l; pure (textOut (compactSerialize l))
   | "jose.compact.parse", [n, t] => do
     let n ← n.toNat?; let t ← textArg t
@@ -74,12 +75,12 @@ def handle (op : String) (args : List String) : Option String :=
   | "jose.merge", [p, u, r] => do
     let p ← parseHeader p; let u ← parseHeader u; let r ← parseHeader r
     pure (hdrStr (mergedHeaders p u r))
-  | "jose.precheck", [e, k, i, t] => do
-    let e ← parseEnc e; let k ← k.toNat?; let i ← i.toNat?; let t ← t.toNat?
-    pure (unitStr (precheck e k i t))
-  | "jose.precheck0", [e, k, i, t] => do
-    let e ← parseEnc e; let k ← k.toNat?; let i ← i.toNat?; let t ← t.toNat?
-    pure (unitStr (precheckUnrepaired e k i t))
+  | "jose.precheck", [e, k, i, c, t] => do
+    let e ← parseEnc e; let k ← k.toNat?; let i ← i.toNat?; let c ← c.toNat?; let t ← t.toNat?
+    pure (unitStr (precheck e k i c t))
+  | "jose.precheck0", [e, k, i, c, t] => do
+    let e ← parseEnc e; let k ← k.toNat?; let i ← i.toNat?; let c ← c.toNat?; let t ← t.toNat?
+    pure (unitStr (precheckUnrepaired e k i c t))
   | "jose.decres", [o] => do
     let o ← if o == "none" then some none else (parseBytes o).map some
     pure ((decryptResult o).str toHex)
